@@ -915,7 +915,7 @@ inline void enumerate_small(const PropSpec& ps, const Tier& t, int worker, int n
   {
     // symbol length: every L in 1..65536 (thorough) or a ladder of multiples of 512 +-1 plus protocol sizes (quick)
     std::vector<uint32_t> Ls;
-    if (t.thorough) for (uint32_t L = 1; L <= 65536; L++) Ls.push_back(L);
+    if (t.thorough) { for (uint32_t L = 1; L <= 8192; L++) Ls.push_back(L); for (uint32_t L = 8192 + 512; L <= 65536; L += 512) { Ls.push_back(L - 1); Ls.push_back(L); Ls.push_back(L + 1); } for (uint32_t L : {8972u, 9000u, 12288u, 65507u, 65535u}) Ls.push_back(L); }
     else { for (uint32_t L = 512; L <= 65536; L += 512) { Ls.push_back(L - 1); Ls.push_back(L); Ls.push_back(L + 1); } for (uint32_t L : {1472u, 8972u, 9000u, 12288u, 65507u, 65535u}) Ls.push_back(L); }
     std::vector<Config> lc;
     auto mk = [&](int codec, uint32_t m, uint32_t k, uint32_t r, uint32_t N1, uint32_t sd) { Config c; c.codec = codec; c.m = m; c.k = k; c.r = r; c.N1 = N1; c.seed = sd; c.payload = PAY_RANDOM; return c; };
@@ -958,7 +958,7 @@ inline void enumerate_small(const PropSpec& ps, const Tier& t, int worker, int n
         if (!one(dec_history(c, mask, api, (int)(L % 3), mix2(seed, L), fin, cb, false, -1))) return;
         swept++;
       }
-    if (st_out) st_out->subspaces.push_back(std::string("symbol length sweep: ") + (t.thorough ? "every L in 1..65536" : "multiples of 512 +-1 up to 65536 and protocol sizes (1472, 8972, 9000, 12288, 65507, 65535)") + " on " + std::to_string(lc.size()) + " tiny codes with one source and one repair lost" + (ml_entry != (size_t)-1 ? " (one LDPC code with a received set that needs the ML pass)" : "") + ": complete");
+    if (st_out) st_out->subspaces.push_back(std::string("symbol length sweep: ") + (t.thorough ? "every L in 1..8192, then multiples of 512 +-1 up to 65536 and protocol sizes" : "multiples of 512 +-1 up to 65536 and protocol sizes (1472, 8972, 9000, 12288, 65507, 65535)") + " on " + std::to_string(lc.size()) + " tiny codes with one source and one repair lost" + (ml_entry != (size_t)-1 ? " (one LDPC code with a received set that needs the ML pass)" : "") + ": complete");
     if (st_out) st_out->counters["L_sweep_cases_through_ML"] += swept_ml;
     // number of repair symbols (LDPC): every r = n-k in 3..8192 (quick) / 3..24999 (thorough) at rate 1/2 (k = r, N1 = 3: no extra
     // entries, every source in three equations). The lost set is a stopping set read off the reference code: the source s whose
